@@ -687,9 +687,7 @@ class SpecGen:
                     cases.append(CASE(v))
                 else:
                     cb, ci = self.body(top=False, depth=st['depth'] + 1, cls='', chunked=st['chunked'], in_case=True)
-                    cb = [i for i in cb if not (i['tag'] == 'field' and str(i['attrs'].get('optional', '')).lower() == 'true')] or [F('z', 'char')]
-                    if any(i['tag'] == 'dummy' for i in cb):
-                        cb = [F('z', 'char')]
+                    cb = self.case_safe(cb)
                     unb = unb or not ci['bounded']
                     cases.append(CASE(v, *cb))
             if cases and rng.random() < 0.4:
@@ -697,9 +695,7 @@ class SpecGen:
                     cases.append(CASE(None, default=True))
                 else:
                     cb, ci = self.body(top=False, depth=st['depth'] + 1, cls='', chunked=st['chunked'], in_case=True)
-                    cb = [i for i in cb if not (i['tag'] == 'field' and str(i['attrs'].get('optional', '')).lower() == 'true')] or [F('z', 'char')]
-                    if any(i['tag'] == 'dummy' for i in cb):
-                        cb = [F('z', 'char')]
+                    cb = self.case_safe(cb)
                     unb = unb or not ci['bounded']
                     cases.append(CASE(None, *cb, default=True))
             b.append(SW(fname, *cases))
@@ -732,6 +728,19 @@ class SpecGen:
             b.append(dict(BR))
             st['bounded'] = True
             self.feat('break', ctxn)
+
+    def case_safe(self, cb):
+        """a case body must not reach an optional field or a dummy: the flags propagate to the enclosing body"""
+        def bad(body):
+            for i in body:
+                if i['tag'] == 'dummy' or str(i.get('attrs', {}).get('optional', '')).lower() == 'true':
+                    return True
+                if i['tag'] == 'chunked' and bad(i['body']):
+                    return True
+                if i['tag'] == 'switch' and any(bad(c['body']) for c in i['cases']):
+                    return True
+            return False
+        return [F('z', 'char')] if bad(cb) else cb
 
     def flat(self, body):
         for i in body:
